@@ -163,7 +163,15 @@ pub fn par_units(n: usize, work: &(dyn Fn(usize, &mut Acc) + Sync)) -> Acc {
                         let r = std::panic::catch_unwind(std::panic::AssertUnwindSafe(|| work(u, &mut acc)));
                         if let Err(e) = r {
                             let msg = crate::bind::panic_text(&e);
-                            panics.lock().unwrap().push(format!("harness worker panicked outside a guarded subject call (unit {}): {}", u, msg));
+                            if msg.contains("/repo/src/") {
+                                // the panic was raised inside the repository's own sources, in a call the harness made with an
+                                // in-domain input while checking this property: the engine died there - a verdict, not a
+                                // machinery error (the guarded call sites give better diagnostics; this is the safety net)
+                                let loc = msg.rsplit(" @ ").next().unwrap_or("").to_string();
+                                acc.violation(format!("subject-panic|{}", loc), format!("the engine panicked in a call made while checking this property (work unit {}): {}", u, msg), json::obj(vec![("kind", json::s("subject-panic")), ("panic", json::s(msg.clone()))]));
+                            } else {
+                                panics.lock().unwrap().push(format!("harness worker panicked outside a guarded subject call (unit {}): {}", u, msg));
+                            }
                         }
                     }
                     total.lock().unwrap().merge(acc);
